@@ -256,6 +256,9 @@ def cb_check(case):
 
 
 # ------------------------------------------------------------------------------------------------ clause: homogeneity, spectral norm
+SCALARS = {"-1": -1.0, "2": 2.0, "0.5": 0.5, "i": 1j, "e^.4i": np.exp(0.4j), "1.5e^-.3i": 1.5 * np.exp(-0.3j)}
+
+
 def props_cases(tier, seed):
     for d in dims_for(tier):
         names = [n for n in map_catalogue(d) if not n.startswith("ch:U:") or n in ("ch:U:F", "ch:U:g0", "ch:U:XZ")]
@@ -263,6 +266,10 @@ def props_cases(tier, seed):
             names = [n for n in names if n.split(":")[0] in ("cp", "hp", "nonherm")][:6]
         for n in names:
             for c in ("-1", "2", "0.5", "i"):
+                yield {"d": d, "map": n, "what": "homog", "c": c}
+            # complex scalars of moderate phase (added after seeded change C20-7: a positivity test that read only the lower
+            # triangle and the real part of the diagonal took c*J(Phi) for a completely positive map)
+            for c in ("e^.4i", "1.5e^-.3i"):
                 yield {"d": d, "map": n, "what": "homog", "c": c}
             yield {"d": d, "map": n, "what": "spectral"}
 
@@ -279,7 +286,7 @@ def props_check(case):
     d = case["d"]
     J = map_catalogue(d)[case["map"]]
     if case["what"] == "homog":
-        c = {"-1": -1.0, "2": 2.0, "0.5": 0.5, "i": 1j}[case["c"]]
+        c = SCALARS[case["c"]]
         k0, k1 = classify(J, d), classify(c * J, d)
         if k0 is None or k1 is None:
             return indet("inside a classification margin")
@@ -333,6 +340,9 @@ def diamond_cases(tier, seed):
         names = diamond_channel_names(d, tier)
         for a, b in itertools.product(names, repeat=2):
             yield {"d": d, "a": a, "b": b, "what": "pair"}
+        if d == 2:
+            for a, b in MAP_PAIRS_Q:
+                yield {"d": d, "a": a, "b": b, "what": "maps"}
         inv_pairs = [("U:F", "ad:0.3"), ("stine:g0", "depol:0.25"), ("U:g0", "U:Z"), ("mix:F,g0", "stine:g1")]
         if d == 3:
             inv_pairs = inv_pairs[:2]
@@ -340,6 +350,23 @@ def diamond_cases(tier, seed):
             for w in (catalog.unitaries(d) if tier == "thorough" else ("F", "T", "XZ", "g0", "g1")):
                 for side in ("pre", "post"):
                     yield {"d": d, "a": a, "b": b, "what": "invariance", "w": w, "side": side}
+
+
+# pairs of linear maps that are not channels (the property quantifies over them; added after seeded change C20-8, which clipped the
+# distance to the range [0, 2] that only pairs of channels obey): scaled unitary channels and differences of channels
+MAP_PAIRS_Q = [("3*U:I", "3*U:F"), ("1.5*U:F", "1.5*U:g0"), ("3*U:g0", "3*U:XZ"), ("U:I-U:XZ", "U:F-U:I"), ("U:I-depol:0.25", "ad:0.3-U:F"),
+               ("2*U:I", "U:I"), ("stine:g0-U:I", "U:g1-stine:g1")]
+
+
+def _map_named(d, name):
+    """'a*X' = a times the Choi matrix of channel X, 'X-Y' = difference of two channels."""
+    if "*" in name:
+        a, n = name.split("*")
+        return float(a) * _choi_named(d, n)
+    if "-" in name:
+        x, y = name.split("-")
+        return _choi_named(d, x) - _choi_named(d, y)
+    return _choi_named(d, name)
 
 
 def _choi_named(d, name):
@@ -350,6 +377,22 @@ def diamond_check(case):
     from toqito.channel_metrics import diamond_distance
 
     d = case["d"]
+    if case["what"] == "maps":
+        M1, M2 = _map_named(d, case["a"]), _map_named(d, case["b"])
+        D, exc = call(diamond_distance, M1, M2)
+        Dr, exc2 = call(diamond_distance, M2, M1)
+        if exc is not None or exc2 is not None:
+            return viol("diamond_distance raised on a pair of linear maps: " + exc_text(exc or exc2), site="diamond_distance:exception")
+        D, Dr = float(np.real(D)), float(np.real(Dr))
+        tn = trace_norm(M1 - M2)
+        L, U = cb_bracket(M1 - M2, d)
+        slack = 2 * IPM * max(1.0, U)
+        if D < L - slack or D > U + slack or D < tn / d - slack or D > tn + slack:
+            return viol("diamond distance of two linear maps outside the certified bracket of ||M1 - M2||_cb / the Choi trace-norm bounds",
+                        site="diamond_distance:maps", observed=D, expected=[max(L, tn / d), min(U, tn)])
+        if abs(D - Dr) > slack:
+            return viol("diamond distance of two linear maps is not symmetric", site="diamond_distance:symmetry", observed=[D, Dr])
+        return ok(True, obs=round(D, 5))
     ka, kb = kraus_catalogue(d)[case["a"]], kraus_catalogue(d)[case["b"]]
     J1, J2 = choi_of([(K, K) for K in ka], d), choi_of([(K, K) for K in kb], d)
     D, exc = call(diamond_distance, J1, J2)
@@ -521,9 +564,9 @@ CLAUSES = [
     Clause("C20.cb_bracket", cb_cases, cb_check, tol="ipm(1e-4 rel)", chunk=1, weight=0.5,
            doc="completely_bounded_trace_norm inside the certified Watrous primal/dual bracket; =1 on channels; =||Phi*(I)|| on CP maps"),
     Clause("C20.cb_props", props_cases, props_check, tol="ipm(1e-4 rel)", chunk=1, weight=0.5,
-           doc="|c|-homogeneity for c in {-1,2,1/2,i}; cb spectral norm = cb trace norm of the independently built dual, =||Phi(I)|| on CP maps"),
+           doc="|c|-homogeneity for c in {-1,2,1/2,i,e^{.4i},1.5e^{-.3i}}; cb spectral norm = cb trace norm of the independently built dual, =||Phi(I)|| on CP maps"),
     Clause("C20.diamond", diamond_cases, diamond_check, tol="ipm(4e-4)", chunk=2, weight=0.3,
-           doc="all ordered channel pairs: symmetric, 0 iff equal, Choi trace-norm bounds, unitary-pair closed form, certified bracket, unitary invariance"),
+           doc="all ordered channel pairs: symmetric, 0 iff equal, Choi trace-norm bounds, unitary-pair closed form, certified bracket, unitary invariance; pairs of non-channel linear maps (scaled channels, differences) in the certified bracket"),
     Clause("C20.channel_fidelity", cf_cases, cf_check, tol="scs(2e-3)", chunk=1, weight=5.0, probe=1,
            doc="symmetric, 1 on equal, <= output fidelity of explicit inputs (incl. Choi states), unitary-pair and replacer closed forms, local dims 2,3,4,5"),
     Clause("C20.channel_fos", fos_cases, fos_check, tol="1e-3", chunk=1, weight=1.0, probe=1,
